@@ -4,6 +4,7 @@ import GldapModel.Props.C03
 import GldapModel.Props.C04
 import GldapModel.Props.C05
 import GldapModel.Proofs.ParseConsumes
+import GldapModel.Proofs.ParseExtend
 /-! # End to end: from the bytes a client sends on a connection to the bytes it reads back
 
 Composition of C01 (decoding), C03 (routing), C04 (responses) and the byte-level half of C10
@@ -273,6 +274,73 @@ theorem session_fuel (env : Env) (table) (g : Guards) (cfg : Cfg) (f1 f2 : Nat) 
           · simp [hu]
           · simp only [hu]
             rw [ih f2 (frameRest env bs) (by omega) (by omega)]
+
+
+/-! ### sessions compose along the stream, whatever the encoding of the frames -/
+
+/-- reading and decoding the first frame of a stream does not depend on what follows it -/
+theorem serveFrame_ext (env : Env) (g : Guards) (bs t : Bytes) (msg : Msg) (h : serveFrame env g bs = .ok msg) :
+    serveFrame env g (bs ++ t) = .ok msg ∧ frameRest env (bs ++ t) = frameRest env bs ++ t := by
+  unfold serveFrame at h
+  cases hp : readPacket env.ext bs with
+  | none => simp [hp] at h
+  | some pr =>
+    obtain ⟨p, r⟩ := pr
+    have he := readPacket_ext env.ext bs t p r hp
+    constructor
+    · unfold serveFrame
+      simp only [hp] at h
+      simp only [he]
+      exact h
+    · simp [frameRest, hp, he]
+
+/-- **A connection's answers to a stream are the answers to its first part followed by the
+    answers to the rest** - for every byte stream the reader accepts frame after frame
+    (canonical or not: indefinite lengths, padded lengths, anything), not only for the encoder's
+    image as in `session_requests`. `a` is a part of the stream that is consumed completely and
+    ends between two frames; `b` is whatever comes next. -/
+theorem session_append (env : Env) (table) (g : Guards) (cfg : Cfg) (f : Nat) (a : Bytes) (o : List Bytes)
+    (ha : session env table g cfg f a = (o, .eof)) (hf : a.length < f) (b : Bytes) (fb : Nat) (hb : b.length < fb) :
+    session env table g cfg (f + fb) (a ++ b) =
+      (o ++ (session env table g cfg fb b).1, (session env table g cfg fb b).2) := by
+  induction f generalizing a o with
+  | zero => omega
+  | succ f ih =>
+    by_cases hemp : a.isEmpty = true
+    · have ha0 : a = [] := by simpa using hemp
+      subst ha0
+      rw [session] at ha
+      simp at ha
+      subst ha
+      simp only [List.nil_append]
+      rw [session_fuel env table g cfg (f + 1 + fb) fb b (by omega) hb]
+    · rw [session] at ha
+      simp only [hemp] at ha
+      cases hs : serveFrame env g a with
+      | err => simp [hs] at ha
+      | panic => simp [hs] at ha
+      | ok msg =>
+        simp only [hs] at ha
+        by_cases hu : msg.isUnbind = true
+        · simp [hu] at ha
+        · simp only [hu] at ha
+          have hl := frameRest_len env g a msg hs
+          obtain ⟨hx1, hx2⟩ := serveFrame_ext env g a b msg hs
+          have hne : (a ++ b).isEmpty = false := by
+            cases a with
+            | nil => simp at hemp
+            | cons x xs => rfl
+          have hfe : f + 1 + fb = (f + fb) + 1 := by omega
+          rw [hfe, session]
+          simp only [hne, hx1, hu, hx2]
+          cases hr : session env table g cfg f (frameRest env a) with
+          | mk o' e' =>
+            rw [hr] at ha
+            have ho : respond table g cfg msg ++ o' = o := congrArg Prod.fst ha
+            have he : e' = Ending.eof := congrArg Prod.snd ha
+            subst ho; subst he
+            rw [ih (frameRest env a) o' hr (by omega)]
+            simp [List.append_assoc]
 
 /-! ### gldap's own code never crashes a session (C02 along the whole stream) -/
 
